@@ -158,12 +158,30 @@ def boundary_class(cmd: dict, effects: list[dict], k: int, fault_kind: str) -> s
 
 
 def _primary_zids(zdir: str) -> dict[str, list]:
+    return _zids_of(ob.read_files(zdir, (".zo",)))
+
+
+def _zids_of(files: dict) -> dict[str, list]:
     out: dict[str, list] = {}
-    for rel, data in ob.read_files(zdir, (".zo",)).items():
+    for rel, data in files.items():
         for i, line in enumerate(data.decode("utf-8", "replace").split("\n")):
             p = ob.split_item_line(line)
             if p and p["zid"]:
                 out.setdefault(p["zid"], []).append([rel, i + 1])
+    return out
+
+
+def _pages_modulo_new_zids(zdir: str, before_zids: dict) -> dict[str, list[str]]:
+    """The pages with every ZID that the command itself allocated replaced by a placeholder
+    (which suffix a new note gets legitimately depends on where an interrupted run died)."""
+    out: dict[str, list[str]] = {}
+    for rel, data in ob.read_files(zdir, (".zo",)).items():
+        lines = data.decode("utf-8", "replace").split("\n")
+        for i, line in enumerate(lines):
+            p = ob.split_item_line(line)
+            if p and p["zid"] and p["zid"] not in before_zids:
+                lines[i] = line.replace(p["zid"], p["zid"][:7] + "<new>", 1)
+        out[rel] = lines
     return out
 
 
@@ -220,6 +238,7 @@ def execute(case: dict, scratch: str) -> dict:
     rec.probe("world-with-commit", int(any(e["kind"] == "commit" for e in effects)))
     rec.probe("world-with-whitelisted-broken-page", int(bool(case.get("broken_page"))))
     rec.probe("world-with-deleted-or-renamed-page", int(any(e.get("e") in ("page_delete", "page_mv") for e in case.get("edits", []))))
+    golden_pages = _pages_modulo_new_zids(golden.zdir, before_zids)
     golden.destroy()
 
     # ----------------------------------------------------------------- sweep
@@ -236,13 +255,23 @@ def execute(case: dict, scratch: str) -> dict:
     only = case.get("only")
     first_violation: Optional[dict] = None
     classes = set()
-    for plan in plans:
+    # every crash point is decided with an immediate rerun; at a share of them (a quarter for
+    # edits, half for "the user undoes the edits") ALSO with the user acting before the rerun
+    is_undo = bool(case.get("between")) and case["between"][0].get("e") == "undo_everything"
+    variants: list[tuple[dict, bool]] = []
+    for i, plan in enumerate(plans):
+        variants.append((plan, False))
+        if case.get("between") and (is_undo or not cmd.get("paths")) and (len(plans) < 3 or (i + case.get("between_salt", 0)) % (2 if is_undo else 4) == 0):
+            variants.append((plan, True))
+    for plan, with_between in variants:
         cls = boundary_class(cmd, effects, plan["k"], plan["kind"])
         if only is not None:
+            if with_between != ("+user-edits" in only["cls"]):
+                continue
             if "k" in only:
                 if plan != only["plan"]:
                     continue
-            elif not (plan["kind"] == only["fault_kind"] and cls == only["cls"]):
+            elif not (plan["kind"] == only["fault_kind"] and cls == only["cls"].split("+")[0]):
                 continue
         twin = sim.clone(os.path.join(scratch, "twin"))
         try:
@@ -265,11 +294,11 @@ def execute(case: dict, scratch: str) -> dict:
                 rec.nontrivial.append(cls + "@" + rec.states[-1])
             bt, bz = before_text, before_zids
             # (not for explicit-path commands: those do not promise to notice deleted / renamed pages)
-            if case.get("between") and not cmd.get("paths") and (len(plans) < 3 or (plans.index(plan) + case.get("between_salt", 0)) % 4 == 0):
-                if case["between"] and case["between"][0].get("e") == "undo_everything":
+            if with_between:
+                if is_undo:
                     # the user undoes every edit made since the directory was last indexed:
                     # all pages are byte-identical to what the index was built from again
-                    reports = _undo_everything(twin, indexed_snapshot if case.get("prior") else None, case["between"][0].get("some"))
+                    reports = _undo_everything(twin, indexed_snapshot if case.get("prior") else None, case["between"][0].get("some"), content_only=bool(cmd.get("paths")))
                 else:
                     reports = user.apply_edits(twin.zdir, case["between"], twin.day)
                 if any(r.get("applied") for r in reports):
@@ -279,6 +308,8 @@ def execute(case: dict, scratch: str) -> dict:
                     cls = cls + "+user-edits"
                     bt, bz = _user_texts(twin.zdir), _primary_zids(twin.zdir)
                     rec.note("between", reports=reports)
+                else:
+                    continue  # nothing happened: the plain variant has already decided this point
             # thorough: for a share of the crash points the rerun is killed as well
             # (at a seeded boundary of ITS effect sequence) before the final rerun
             sc = case.get("second_crash") or []
@@ -302,7 +333,7 @@ def execute(case: dict, scratch: str) -> dict:
                 # name is what C08 demands, not a failure to converge
                 rec.stat("rerun-refused-legitimately")
                 continue
-            v = _judge(twin, orr, cls, plan, bt, bz, scratch)
+            v = _judge(twin, orr, cls, plan, bt, bz, scratch, golden_pages if "+user-edits" not in cls else None)
             if v:
                 v["detail"]["plan"] = plan
                 v["detail"]["effects"] = [_eff_class(e) for e in effects]
@@ -315,38 +346,49 @@ def execute(case: dict, scratch: str) -> dict:
     return rec.result(first_violation)
 
 
-def _undo_everything(twin: core.Sim, snapshot: Optional[dict], some: Optional[int] = None) -> list[dict]:
-    """Every page (or, with `some`, a seeded half of the pages) goes back to the bytes the index was built from."""
+def _undo_everything(twin: core.Sim, snapshot: Optional[dict], some: Optional[int] = None, content_only: bool = False) -> list[dict]:
+    """Every page (or, with `some`, a seeded half of the pages) goes back to the bytes the index
+    was built from. `content_only` (explicit-path commands, which do not promise to notice
+    deleted / renamed pages): no page appears or disappears, only contents go back."""
     if not snapshot:
         return [{"applied": False, "why": "nothing was indexed before"}]
     now = ob.read_files(twin.zdir, (".zo",))
+    want = dict(now)
     coin = random.Random(some)
-    changed = False
     for rel in sorted(set(now) - set(snapshot)):
-        if some is not None and coin.random() < 0.5:
+        if content_only or (some is not None and coin.random() < 0.5):
             continue
-        os.unlink(os.path.join(twin.zdir, rel))
-        changed = True
+        del want[rel]
     for rel, data in sorted(snapshot.items()):
-        if some is not None and coin.random() < 0.5:
+        if (content_only and rel not in now) or (some is not None and coin.random() < 0.5):
             continue
+        want[rel] = data
+    if any(len(w) > 1 for w in _zids_of(want).values()):
+        # undoing half of a rename or of a cut-and-paste leaves the user with two copies of a
+        # note (same ZID twice): that is the user's doing, outside the statement
+        if some is not None:
+            return _undo_everything(twin, snapshot, None, content_only)  # -> undo the rest too
+        return [{"applied": False, "why": "the undo would duplicate a note"}]
+    if want == now:
+        return [{"applied": False}]
+    for rel in sorted(set(now) - set(want)):
+        os.unlink(os.path.join(twin.zdir, rel))
+    for rel, data in sorted(want.items()):
         if now.get(rel) != data:
             os.makedirs(os.path.dirname(os.path.join(twin.zdir, rel)), exist_ok=True)
             with core._real_open(os.path.join(twin.zdir, rel), "wb") as f:
                 f.write(data)
-            changed = True
-    if some is not None and any(len(w) > 1 for w in _primary_zids(twin.zdir).values()):
-        # undoing half of a rename or of a cut-and-paste leaves the user with two copies of a
-        # note (same ZID twice): that is the user's doing, outside the statement -> undo the rest too
-        return _undo_everything(twin, snapshot)
-    return [{"applied": changed, "undo": True, "deleted": True} if changed else {"applied": False}]
+    rep: dict = {"applied": True, "undo": True}
+    if set(now) != set(want):
+        rep["deleted"] = True
+    return [rep]
 
 
 def _strip(e: dict) -> dict:
     return {k: v for k, v in e.items() if k in ("k", "kind", "path", "size", "sha")}
 
 
-def _judge(twin: core.Sim, orr: core.Outcome, cls: str, plan: dict, before_text: dict, before_zids: dict, scratch: str) -> Optional[dict]:
+def _judge(twin: core.Sim, orr: core.Outcome, cls: str, plan: dict, before_text: dict, before_zids: dict, scratch: str, golden_pages: Optional[dict] = None) -> Optional[dict]:
     if orr.status != "ok":
         exc = orr.exc or {}
         where = exc["where"][-1][1] if exc.get("where") else "?"
@@ -373,4 +415,15 @@ def _judge(twin: core.Sim, orr: core.Outcome, cls: str, plan: dict, before_text:
     if problems:
         p = problems[0]
         return hist.viol("after-rerun:" + p["clause"], cls, problem=p, more=len(problems) - 1)
+    # (a) "exactly as after an uninterrupted run": when nothing but the kill happened, the pages
+    # (and, by the agreement just checked, the index) are those of the uninterrupted run, up to
+    # which fresh ZID a new note received
+    if golden_pages is not None:
+        mine = _pages_modulo_new_zids(twin.zdir, before_zids)
+        for rel in sorted(set(golden_pages) | set(mine)):
+            g, m = golden_pages.get(rel), mine.get(rel)
+            if g != m:
+                i = next((i for i in range(min(len(g or []), len(m or []))) if g[i] != m[i]), None) if g and m else None
+                what = "page-set" if g is None or m is None else ("modify-date" if i is not None and ob.user_text(g[i]) == ob.user_text(m[i]) else "text")
+                return hist.viol("differs-from-uninterrupted-run:" + what, cls, page=rel, line=None if i is None else i + 1, uninterrupted=None if g is None else (g[i] if i is not None else g), rerun=None if m is None else (m[i] if i is not None else m))
     return None
